@@ -20,6 +20,7 @@ package discovery
 
 import (
 	"context"
+	"encoding/json"
 	"errors"
 	"fmt"
 	ssi "github.com/nuts-foundation/go-did"
@@ -252,7 +253,19 @@ func (r *clientRegistrationManager) findCredentialsAndBuildPresentation(ctx cont
 		return nil, fmt.Errorf(errStr, service.ID, subjectDID, err)
 	}
 
-	return r.buildPresentation(ctx, subjectDID, service, matchingCredentials, nil, nil)
+	// Match() returns a credential for every matched input descriptor, so a credential that matches multiple input descriptors
+	// is returned multiple times. It must be presented only once: that is what the Discovery Server expects (see validateRegistration).
+	var uniqueCredentials []vc.VerifiableCredential
+	seen := make(map[string]bool, len(matchingCredentials))
+	for _, cred := range matchingCredentials {
+		credJSON, _ := json.Marshal(cred)
+		if !seen[string(credJSON)] {
+			seen[string(credJSON)] = true
+			uniqueCredentials = append(uniqueCredentials, cred)
+		}
+	}
+
+	return r.buildPresentation(ctx, subjectDID, service, uniqueCredentials, nil, nil)
 }
 
 func (r *clientRegistrationManager) buildPresentation(ctx context.Context, subjectDID did.DID, service ServiceDefinition, credentials []vc.VerifiableCredential, additionalProperties map[string]interface{}, additionalVPType *ssi.URI) (*vc.VerifiablePresentation, error) {
